@@ -10,9 +10,9 @@ Directives.vos Directives.vok Directives.required_vos: Directives.v Ast.vos
 Erase.vo Erase.glob Erase.v.beautified Erase.required_vo: Erase.v Ast.vo Generated.vo HookSites.vo Directives.vo
 Erase.vio: Erase.v Ast.vio Generated.vio HookSites.vio Directives.vio
 Erase.vos Erase.vok Erase.required_vos: Erase.v Ast.vos Generated.vos HookSites.vos Directives.vos
-Extract.vo Extract.glob Extract.v.beautified Extract.required_vo: Extract.v Ast.vo Generated.vo Config.vo Model.vo HookSites.vo Known.vo Directives.vo Erase.vo Sites.vo Hygiene.vo Shapes.vo
-Extract.vio: Extract.v Ast.vio Generated.vio Config.vio Model.vio HookSites.vio Known.vio Directives.vio Erase.vio Sites.vio Hygiene.vio Shapes.vio
-Extract.vos Extract.vok Extract.required_vos: Extract.v Ast.vos Generated.vos Config.vos Model.vos HookSites.vos Known.vos Directives.vos Erase.vos Sites.vos Hygiene.vos Shapes.vos
+Extract.vo Extract.glob Extract.v.beautified Extract.required_vo: Extract.v Ast.vo Generated.vo Config.vo ToConfig.vo Model.vo HookSites.vo Known.vo Directives.vo Erase.vo Sites.vo Hygiene.vo Shapes.vo
+Extract.vio: Extract.v Ast.vio Generated.vio Config.vio ToConfig.vio Model.vio HookSites.vio Known.vio Directives.vio Erase.vio Sites.vio Hygiene.vio Shapes.vio
+Extract.vos Extract.vok Extract.required_vos: Extract.v Ast.vos Generated.vos Config.vos ToConfig.vos Model.vos HookSites.vos Known.vos Directives.vos Erase.vos Sites.vos Hygiene.vos Shapes.vos
 Generated.vo Generated.glob Generated.v.beautified Generated.required_vo: Generated.v 
 Generated.vio: Generated.v 
 Generated.vos Generated.vok Generated.required_vos: Generated.v 
@@ -28,6 +28,33 @@ Known.vos Known.vok Known.required_vos: Known.v Ast.vos Generated.vos
 Model.vo Model.glob Model.v.beautified Model.required_vo: Model.v Ast.vo Generated.vo Config.vo
 Model.vio: Model.v Ast.vio Generated.vio Config.vio
 Model.vos Model.vok Model.required_vos: Model.v Ast.vos Generated.vos Config.vos
+P_Config.vo P_Config.glob P_Config.v.beautified P_Config.required_vo: P_Config.v Ast.vo Generated.vo Config.vo ToConfig.vo Model.vo
+P_Config.vio: P_Config.v Ast.vio Generated.vio Config.vio ToConfig.vio Model.vio
+P_Config.vos P_Config.vok P_Config.required_vos: P_Config.v Ast.vos Generated.vos Config.vos ToConfig.vos Model.vos
+P_Directives.vo P_Directives.glob P_Directives.v.beautified P_Directives.required_vo: P_Directives.v Ast.vo Generated.vo Config.vo Model.vo Directives.vo P_OpVisit.vo P_Kinds.vo
+P_Directives.vio: P_Directives.v Ast.vio Generated.vio Config.vio Model.vio Directives.vio P_OpVisit.vio P_Kinds.vio
+P_Directives.vos P_Directives.vok P_Directives.required_vos: P_Directives.v Ast.vos Generated.vos Config.vos Model.vos Directives.vos P_OpVisit.vos P_Kinds.vos
+P_Erase.vo P_Erase.glob P_Erase.v.beautified P_Erase.required_vo: P_Erase.v Ast.vo Generated.vo Config.vo Model.vo HookSites.vo Directives.vo Erase.vo
+P_Erase.vio: P_Erase.v Ast.vio Generated.vio Config.vio Model.vio HookSites.vio Directives.vio Erase.vio
+P_Erase.vos P_Erase.vok P_Erase.required_vos: P_Erase.v Ast.vos Generated.vos Config.vos Model.vos HookSites.vos Directives.vos Erase.vos
+P_Hooks.vo P_Hooks.glob P_Hooks.v.beautified P_Hooks.required_vo: P_Hooks.v Ast.vo Generated.vo Config.vo Model.vo HookSites.vo Erase.vo Shapes.vo
+P_Hooks.vio: P_Hooks.v Ast.vio Generated.vio Config.vio Model.vio HookSites.vio Erase.vio Shapes.vio
+P_Hooks.vos P_Hooks.vok P_Hooks.required_vos: P_Hooks.v Ast.vos Generated.vos Config.vos Model.vos HookSites.vos Erase.vos Shapes.vos
+P_Inert.vo P_Inert.glob P_Inert.v.beautified P_Inert.required_vo: P_Inert.v Ast.vo Generated.vo Config.vo Model.vo P_OpVisit.vo
+P_Inert.vio: P_Inert.v Ast.vio Generated.vio Config.vio Model.vio P_OpVisit.vio
+P_Inert.vos P_Inert.vok P_Inert.required_vos: P_Inert.v Ast.vos Generated.vos Config.vos Model.vos P_OpVisit.vos
+P_Kinds.vo P_Kinds.glob P_Kinds.v.beautified P_Kinds.required_vo: P_Kinds.v Ast.vo Generated.vo Config.vo Model.vo P_OpVisit.vo
+P_Kinds.vio: P_Kinds.v Ast.vio Generated.vio Config.vio Model.vio P_OpVisit.vio
+P_Kinds.vos P_Kinds.vok P_Kinds.required_vos: P_Kinds.v Ast.vos Generated.vos Config.vos Model.vos P_OpVisit.vos
+P_Local.vo P_Local.glob P_Local.v.beautified P_Local.required_vo: P_Local.v Ast.vo Generated.vo Config.vo Model.vo HookSites.vo Erase.vo Shapes.vo P_Hooks.vo
+P_Local.vio: P_Local.v Ast.vio Generated.vio Config.vio Model.vio HookSites.vio Erase.vio Shapes.vio P_Hooks.vio
+P_Local.vos P_Local.vok P_Local.required_vos: P_Local.v Ast.vos Generated.vos Config.vos Model.vos HookSites.vos Erase.vos Shapes.vos P_Hooks.vos
+P_OpVisit.vo P_OpVisit.glob P_OpVisit.v.beautified P_OpVisit.required_vo: P_OpVisit.v Ast.vo Generated.vo Config.vo Model.vo
+P_OpVisit.vio: P_OpVisit.v Ast.vio Generated.vio Config.vio Model.vio
+P_OpVisit.vos P_OpVisit.vok P_OpVisit.required_vos: P_OpVisit.v Ast.vos Generated.vos Config.vos Model.vos
+P_Program.vo P_Program.glob P_Program.v.beautified P_Program.required_vo: P_Program.v Ast.vo Generated.vo Config.vo Model.vo
+P_Program.vio: P_Program.v Ast.vio Generated.vio Config.vio Model.vio
+P_Program.vos P_Program.vok P_Program.required_vos: P_Program.v Ast.vos Generated.vos Config.vos Model.vos
 P_Telemetry.vo P_Telemetry.glob P_Telemetry.v.beautified P_Telemetry.required_vo: P_Telemetry.v Ast.vo Generated.vo Config.vo Model.vo
 P_Telemetry.vio: P_Telemetry.v Ast.vio Generated.vio Config.vio Model.vio
 P_Telemetry.vos P_Telemetry.vok P_Telemetry.required_vos: P_Telemetry.v Ast.vos Generated.vos Config.vos Model.vos
@@ -37,6 +64,30 @@ Shapes.vos Shapes.vok Shapes.required_vos: Shapes.v Ast.vos Generated.vos HookSi
 Sites.vo Sites.glob Sites.v.beautified Sites.required_vo: Sites.v Ast.vo Generated.vo HookSites.vo
 Sites.vio: Sites.v Ast.vio Generated.vio HookSites.vio
 Sites.vos Sites.vok Sites.required_vos: Sites.v Ast.vos Generated.vos HookSites.vos
+ToConfig.vo ToConfig.glob ToConfig.v.beautified ToConfig.required_vo: ToConfig.v Ast.vo Generated.vo Config.vo
+ToConfig.vio: ToConfig.v Ast.vio Generated.vio Config.vio
+ToConfig.vos ToConfig.vok ToConfig.required_vos: ToConfig.v Ast.vos Generated.vos Config.vos
+Properties/C02.vo Properties/C02.glob Properties/C02.v.beautified Properties/C02.required_vo: Properties/C02.v Ast.vo Generated.vo Config.vo Model.vo HookSites.vo Erase.vo P_Hooks.vo P_Erase.vo
+Properties/C02.vio: Properties/C02.v Ast.vio Generated.vio Config.vio Model.vio HookSites.vio Erase.vio P_Hooks.vio P_Erase.vio
+Properties/C02.vos Properties/C02.vok Properties/C02.required_vos: Properties/C02.v Ast.vos Generated.vos Config.vos Model.vos HookSites.vos Erase.vos P_Hooks.vos P_Erase.vos
+Properties/C03.vo Properties/C03.glob Properties/C03.v.beautified Properties/C03.required_vo: Properties/C03.v Ast.vo Generated.vo Config.vo Model.vo HookSites.vo Erase.vo Shapes.vo P_Hooks.vo P_Local.vo
+Properties/C03.vio: Properties/C03.v Ast.vio Generated.vio Config.vio Model.vio HookSites.vio Erase.vio Shapes.vio P_Hooks.vio P_Local.vio
+Properties/C03.vos Properties/C03.vok Properties/C03.required_vos: Properties/C03.v Ast.vos Generated.vos Config.vos Model.vos HookSites.vos Erase.vos Shapes.vos P_Hooks.vos P_Local.vos
+Properties/C04.vo Properties/C04.glob Properties/C04.v.beautified Properties/C04.required_vo: Properties/C04.v Ast.vo Generated.vo Config.vo Model.vo HookSites.vo Sites.vo P_Hooks.vo P_Local.vo
+Properties/C04.vio: Properties/C04.v Ast.vio Generated.vio Config.vio Model.vio HookSites.vio Sites.vio P_Hooks.vio P_Local.vio
+Properties/C04.vos Properties/C04.vok Properties/C04.required_vos: Properties/C04.v Ast.vos Generated.vos Config.vos Model.vos HookSites.vos Sites.vos P_Hooks.vos P_Local.vos
+Properties/C05.vo Properties/C05.glob Properties/C05.v.beautified Properties/C05.required_vo: Properties/C05.v Ast.vo Generated.vo Config.vo ToConfig.vo Model.vo P_Inert.vo P_Config.vo
+Properties/C05.vio: Properties/C05.v Ast.vio Generated.vio Config.vio ToConfig.vio Model.vio P_Inert.vio P_Config.vio
+Properties/C05.vos Properties/C05.vok Properties/C05.required_vos: Properties/C05.v Ast.vos Generated.vos Config.vos ToConfig.vos Model.vos P_Inert.vos P_Config.vos
+Properties/C06.vo Properties/C06.glob Properties/C06.v.beautified Properties/C06.required_vo: Properties/C06.v Ast.vo Generated.vo Config.vo Model.vo Directives.vo Hygiene.vo P_Local.vo P_Directives.vo
+Properties/C06.vio: Properties/C06.v Ast.vio Generated.vio Config.vio Model.vio Directives.vio Hygiene.vio P_Local.vio P_Directives.vio
+Properties/C06.vos Properties/C06.vok Properties/C06.required_vos: Properties/C06.v Ast.vos Generated.vos Config.vos Model.vos Directives.vos Hygiene.vos P_Local.vos P_Directives.vos
+Properties/C07.vo Properties/C07.glob Properties/C07.v.beautified Properties/C07.required_vo: Properties/C07.v Ast.vo Generated.vo Config.vo Model.vo Directives.vo P_Directives.vo
+Properties/C07.vio: Properties/C07.v Ast.vio Generated.vio Config.vio Model.vio Directives.vio P_Directives.vio
+Properties/C07.vos Properties/C07.vok Properties/C07.required_vos: Properties/C07.v Ast.vos Generated.vos Config.vos Model.vos Directives.vos P_Directives.vos
+Properties/C12.vo Properties/C12.glob Properties/C12.v.beautified Properties/C12.required_vo: Properties/C12.v Ast.vo Generated.vo Config.vo Model.vo P_Program.vo P_Inert.vo P_Telemetry.vo
+Properties/C12.vio: Properties/C12.v Ast.vio Generated.vio Config.vio Model.vio P_Program.vio P_Inert.vio P_Telemetry.vio
+Properties/C12.vos Properties/C12.vok Properties/C12.required_vos: Properties/C12.v Ast.vos Generated.vos Config.vos Model.vos P_Program.vos P_Inert.vos P_Telemetry.vos
 Properties/C15.vo Properties/C15.glob Properties/C15.v.beautified Properties/C15.required_vo: Properties/C15.v Ast.vo Generated.vo Config.vo Model.vo P_Telemetry.vo
 Properties/C15.vio: Properties/C15.v Ast.vio Generated.vio Config.vio Model.vio P_Telemetry.vio
 Properties/C15.vos Properties/C15.vok Properties/C15.required_vos: Properties/C15.v Ast.vos Generated.vos Config.vos Model.vos P_Telemetry.vos
